@@ -153,6 +153,21 @@ def gen_device_code(modname, c, af, rng, devname=None):
             t = f"{modname}.N{tag}"; tag += 1
             code.append(f"    println!(\"{t} {{}}\", mock::hex(&<[u8; {n}]>::from(m::field_sets::{fs['name']}::{na['name']}())));")
             lines.append({"tag": t, "kind": "new_as", "fs": fs["name"], "ctor": na["name"]})
+        # byte-array conversions are the identity on the bytes; the bitwise operators act on all underlying bits
+        if n > 0:
+            a1, a2 = pats[1], pats[2]
+            l1 = "[" + ", ".join(str(x) for x in a1) + "]"
+            l2 = "[" + ", ".join(str(x) for x in a2) + "]"
+            FS = f"m::field_sets::{fs['name']}"
+            t = f"{modname}.B{tag}"; tag += 1
+            code.append(f"    println!(\"{t} {{}}\", mock::hex(&<[u8; {n}]>::from({FS}::from({l1}))));")
+            lines.append({"tag": t, "kind": "bytes", "fs": fs["name"], "data": a1})
+            t = f"{modname}.O{tag}"; tag += 1
+            h = lambda e: f"mock::hex(&<[u8; {n}]>::from({e}))"
+            code.append(f"    {{ let a = || {FS}::from({l1}); let b = || {FS}::from({l2}); "
+                        f"let mut x = a(); x &= b(); let mut y = a(); y |= b(); let mut z = a(); z ^= b(); "
+                        f"println!(\"{t} {{}} {{}} {{}} {{}} {{}} {{}} {{}}\", {h('a() & b()')}, {h('a() | b()')}, {h('a() ^ b()')}, {h('!a()')}, {h('x')}, {h('y')}, {h('z')}); }}")
+            lines.append({"tag": t, "kind": "bitops", "fs": fs["name"], "a": a1, "b": a2})
         for pi, pat in enumerate(pats):
             arr = "[" + ", ".join(str(x) for x in pat) + "]"
             for f in fs["fields"]:
@@ -266,6 +281,21 @@ def compare(c, af, lines, printed, want_addr):
             else:
                 if w[0] != mw[1]:
                     bad.append((f"compiled setter leaves {w[0]}, the Lean model of the codec gives {mw[1]}", ln["field"]["name"]))
+        elif ln["kind"] == "bytes":
+            want = "".join("%02x" % b for b in ln["data"])
+            if w[0] != want:
+                bad.append((f"From<[u8; N]> then Into<[u8; N]> gives {w[0]}, the bytes were {want}", ln["fs"]))
+        elif ln["kind"] == "bitops":
+            hx = lambda bs: "".join("%02x" % b for b in bs)
+            a, b = ln["a"], ln["b"]
+            want = [hx([x & y for x, y in zip(a, b)]), hx([x | y for x, y in zip(a, b)]), hx([x ^ y for x, y in zip(a, b)]),
+                    hx([(~x) & 0xFF for x in a])]
+            want += want[:3]
+            names = ["&", "|", "^", "!", "&=", "|=", "^="]
+            for nm, g_, w_ in zip(names, w, want):
+                if g_ != w_:
+                    bad.append((f"operator {nm} gives {g_}, bytewise on all underlying bits it is {w_}", ln["fs"]))
+                    break
         elif ln["kind"] == "new":
             r = regs.get(ln["fs"]) or next((o for n, o in regs.items() if oracles.loose(n) == oracles.loose(ln["fs"])), None)
             if r is not None:
